@@ -1,4 +1,9 @@
 """Shared orchestration for the Serve.tla family (C05, C06, C19)."""
+import json
+import random
+import threading
+from collections import deque
+
 import vf
 
 FAMILIES = ["admission", "shaping", "cookies", "ecs"]
@@ -127,3 +132,162 @@ def replay_record(ctx, rec, focus):
     ctx.cov["transitions"] = max(1, ctx.cov["transitions"])
     ctx.cov["replay"]["replayed_file"] = {"cases": res["cases"], "upstream": rp.get("upstream", "")}
     return True
+
+
+# ---------------------------------------------------------------------------------------------------
+# the cache ladder (family "ladder"): more than one name, time passing
+# ---------------------------------------------------------------------------------------------------
+LADDER_NEG = ["MC_Serve_ladder_neg_nobackoff.cfg", "MC_Serve_ladder_neg_fallthrough.cfg", "MC_Serve_ladder_neg_failfirst.cfg"]
+# situations the replayed histories must contain AND the real decoded entry must confirm (else the run is vacuous)
+LADDER_NEED = ["hit-truncated-under-cut", "lapsed-failure-asked", "cut-over-live-failure", "cut-served", "failure-served"]
+
+
+def ladder_situation(pre, pkt):
+    """The part of the state a ladder-family packet can meet: what is cached for ITS name and partition, is a cut
+    recorded (and consulted: not for CD), the RFC 9520 state of its partition."""
+    cd = pkt["cd"]
+    if pkt["name"] == "sib":
+        return ("sib", bool(pre["sc" if cd else "sa"]), bool(pre["cut"]) and not cd, "none")
+    return ("own", pre["cc" if cd else "ca"], bool(pre["cut"]) and not cd, pre["fc" if cd else "fa"])
+
+
+def ladder_classes(pre, step):
+    """What the model says a query for the own name meets, from the state BEFORE it and its outcome."""
+    p = step["pkt"]
+    if p["name"] != "own":
+        return []
+    _, cached, cut, fail = ladder_situation(pre, p)
+    cls = []
+    if cut and cached and step["o"].get("tc"):
+        cls.append("hit-truncated-under-cut")
+    if not cached and not cut and fail == "lapsed":
+        cls.append("lapsed-failure-asked")
+    if not cached and cut and fail == "live":
+        cls.append("cut-over-live-failure")
+    if not cached and cut and fail != "live":
+        cls.append("cut-served")
+    if not cached and not cut and fail == "live":
+        cls.append("failure-served")
+    return cls
+
+
+def ladder_behaviours(ctx, edges, per_key):
+    """The printed state graph of MC_Serve_ladder -> histories.  Every distinct (situation, packet, model outcome) of the
+    graph is replayed: `per_key` representative edges each (a seeded choice), reached over a shortest path from Init."""
+    rnd = random.Random(ctx.seed)
+    key = lambda st: json.dumps(st, sort_keys=True)  # noqa: E731
+    out, inits = {}, set()
+    for e in edges:
+        k = key(e["pre"])
+        out.setdefault(k, []).append(e)
+        if e["pre"]["n"] == 0 and e["pre"]["nenv"] == 0:
+            inits.add(k)
+    for k in out:
+        rnd.shuffle(out[k])
+    parent = {k: None for k in inits}
+    dq = deque(sorted(inits))
+    while dq:
+        u = dq.popleft()
+        for e in out.get(u, []):
+            v = key(e["post"])
+            if v not in parent:
+                parent[v] = e
+                dq.append(v)
+    groups = {}
+    for e in edges:
+        st = e["step"]
+        if "env" in st:
+            gk = ("env", st["env"], e["pre"]["content"], e["pre"]["fa"], e["pre"]["fc"], e["pre"]["cut"])
+        else:
+            p = st["pkt"]
+            gk = (e["pre"]["content"], ladder_situation(e["pre"], p), p["opt"], p["proto"], p["do"], p["cd"],
+                  st["o"]["kind"], st["o"].get("rcode"), st["o"].get("tc"), st["o"].get("ad"), st["tail"])
+        groups.setdefault(gk, []).append(e)
+    behs, have = [], {}
+    for gk in sorted(groups, key=repr):
+        for e in rnd.sample(groups[gk], min(per_key, len(groups[gk]))):
+            path, k = [e], key(e["pre"])
+            while parent.get(k) is not None:
+                path.append(parent[k])
+                k = key(parent[k]["pre"])
+            path.reverse()
+            content0 = path[0]["pre"]["content"]
+            steps = []
+            for x in path:
+                st = x["step"]
+                if "env" in st:
+                    # `content` keeps naming the behaviour's question after what the upstream answered at the START
+                    steps.append({"env": st["env"], "content": content0})
+                    continue
+                o = st["o"]
+                s = {"pkt": st["pkt"], "content": st["content"] if steps else content0, "expTail": bool(st["tail"]),
+                     "exp": {"kind": o["kind"], "rcode": o.get("rcode", ""), "opt": bool(o.get("opt", False)),
+                             "tc": bool(o.get("tc", False)), "ad": bool(o.get("ad", False))}}
+                cls = ladder_classes(x["pre"], st)
+                if cls:
+                    s["cls"] = cls
+                    for c in cls:
+                        have[c] = have.get(c, 0) + 1
+                steps.append(s)
+            behs.append({"cfg": {"nsid": False, "ratelimit": False, "ecs": "off"}, "steps": steps})
+    return behs, have, len(groups)
+
+
+def ladder(ctx, focus, thorough):
+    """Serve.tla family "ladder": the exhaustive config (which prints its state graph), three mutant configs that must
+    violate PathsAgree, and histories covering the graph (queries for the own name and its sibling, Elapse, Recover)
+    replayed through the three entries."""
+    errs, box = [], {}
+
+    def guard(f):
+        def g():
+            try:
+                f()
+            except BaseException as ex:  # noqa: BLE001
+                errs.append(ex)
+        return g
+
+    def pos():
+        # one worker: the printed edges must not interleave
+        box["r"] = ctx.tlc("Serve", "MC_Serve.tla", "MC_Serve_ladder.cfg", workers=1, timeout=900, heap="4g")
+
+    def neg(cfg):
+        r = ctx.tlc("Serve", "MC_Serve.tla", cfg, workers=2, timeout=600, heap="2g", must_pass=False, count=False,
+                    tag="negative-must-fail")
+        if r.violated != "PathsAgree":
+            raise vf.MachineryError("mutant config %s does not violate PathsAgree (got %s): the ladder invariant is vacuous"
+                                    % (cfg, r.violated))
+
+    ts = [threading.Thread(target=guard(pos))] + [threading.Thread(target=guard(lambda c=c: neg(c))) for c in LADDER_NEG]
+    for t in ts:
+        t.start()
+    for t in ts:
+        t.join()
+    if errs:
+        raise errs[0]
+    edges = [v for v in box["r"].printed() if isinstance(v, dict) and v.get("edge") == "ladder"]
+    if len(edges) < 1000:
+        raise vf.MachineryError("MC_Serve_ladder printed %d edges of its state graph" % len(edges))
+    behs, have, ngroups = ladder_behaviours(ctx, edges, 1 if not thorough else 4)
+    miss = [c for c in LADDER_NEED if not have.get(c)]
+    if miss:
+        raise vf.MachineryError("ladder family: no history with %s in the state graph (vacuous)" % miss)
+    for b in behs:
+        ctx._distinct.add("serve:ladder:%r" % (b,))
+    inp = {"behaviours": behs, "variants": 2 if not thorough else 4, "focus": focus, "family": "ladder"}
+    res = ctx.go_driver("./serve", "TestServeReplay", inp, name="serve_%s_ladder" % focus, timeout=1200)
+    ctx.take_driver_result(res, "[Serve ladder] ")
+    cnt = res.get("counters", {})
+    ctx.cov["replay"]["serve_ladder"] = {
+        "graph_edges": len(edges), "situations": ngroups, "behaviours": len(behs), "model_classes": have, "cases": res["cases"],
+        "drift": res["drift"], "drift_notes": res.get("drift_notes", [])[:5], "counters": cnt}
+    if res.get("violations"):
+        return
+    if res.get("skipped"):
+        raise vf.MachineryError("serve ladder replay skipped: %s" % res["skipped"][:3])
+    if res["cases"] == 0:
+        raise vf.MachineryError("serve ladder replay ran no cases")
+    dead = [c for c in LADDER_NEED if not cnt.get("confirmed_" + c)]
+    if dead:
+        raise vf.MachineryError("ladder family: the real decoded entry never produced %s (the histories do not build the "
+                                "state on this tree: vacuous)" % dead)
